@@ -17,6 +17,7 @@ ELSEWHERE = {
     "C04-r10-1": "one response is still written, its head is malformed: reported by the C05 / C10 / C14 checks (`truncate_new_line_carriage_return / postcondition`)",
     "C12-r11a-3": "the settings are as they should be, the CORS code reads the wrong one: reported by the C11 check (`Cors::process_using_default_config / postcondition`)",
     "C03-r6-3": "`Response::generate`, the twin the server does not call; its postconditions already fail (known finding F10, owned by C15)",
+    "C03-r12-1": "`Response::generate`, the twin the server does not call; its postconditions already fail (known finding F10, owned by C15)",
     "C04-r6-3": "a schedule property (one connection at a time): C06 / C07, not applicable to this technique",
 }
 out = ["| seed | what it changes | verdict | how |", "|---|---|---|---|"]
